@@ -89,7 +89,10 @@ impl<'a> VecIo<'a> {
         // "every length": a slice of the wrong length may be refused (panic) but a call that
         // returns must have stayed inside it -- the short slice abuts unmapped memory / canaries
         let seed = self.data[0] as usize;
-        for bl in [0usize, 1, nb / 2, nb - 1, nb - 4, (seed * 7) % nb] {
+        crate::log::expect_panics(true);
+        // three of six wrong lengths per case, by turns
+        let all = [0usize, 1, nb / 2, nb - 1, nb - 4, (seed * 7) % nb];
+        for bl in [all[seed % 6], all[(seed + 1) % 6], all[(seed + 3) % 6]] {
             let mut o = GuardBuf::new(&vec![0x11u8; bl], self.place);
             let stored = guarded(|| v.write_le(o.slice_mut())).is_ok();
             let stored_be = guarded(|| v.write_be(o.slice_mut())).is_ok();
@@ -107,6 +110,7 @@ impl<'a> VecIo<'a> {
             self.wrong_len_calls += 3;
             self.wrong_len_returned += stored as u64 + stored_be as u64 + loaded as u64;
         }
+        crate::log::expect_panics(false);
     }
 }
 impl<'a> MachFn for VecIo<'a> {
@@ -181,7 +185,7 @@ fn exec_inner(c: &Case) -> Result<u64, String> {
             let n = if wide { 256 } else { 64 };
             let mut st = c2_chacha::guts::ChaCha::new(&key, &nonce);
             st.set_stream_param(0, ctr);
-            let mut g = GuardBuf::new(&vec![0u8; n], c.place);
+            let mut g = GuardBuf::new(&vec![0x6Du8; n], c.place); // a result buffer that held other data
             if wide {
                 let a: &mut [u8; 256] = g.slice_mut().try_into().unwrap();
                 st.refill4(dr, a);
